@@ -13,7 +13,13 @@ a channel, then any sequence of
 * `_calc_precoder(self._channel)`, `_calc_receive_filter(self._channel, v)`
   — the pair `calc_linear_SINRs(v)` works with (`Op.filters v`)
 * `calc_post_processing_linear_SINRs(self._channel, W, G_H, v)` for that pair
-  (`Op.sinr v`; `Alamouti.calc_linear_SINRs(v)` for Alamouti).
+  (`Op.sinr v`; `Alamouti.calc_linear_SINRs(v)` for Alamouti);
+* reading the stored `_channel` (always 2-D, whichever way and in whichever layout it was
+  handed over; `None` while unset) and hence `Nr`, `Nt` (`Op.channel`).
+
+The channel reaches the object in three ways: the constructor argument (`construct`: the
+constructor calls the class's own `set_channel_matrix`), `set_channel_matrix` on an object
+built without one (`constructEmpty` + `Op.setChannel`), or as a later replacement.
 
 The state the code keeps is exactly `_channel` and (Blast family) `_noise_var`:
 there is no cached precoder / filter, every `encode` / `decode` recomputes them
@@ -77,6 +83,7 @@ inductive Op (α : Type)
   | decode (nr L : Nat) (Y : Mat α nr L)
   | filters (v : α)
   | sinr (v : α)
+  | channel
 
 /-- the object state: `_channel` (`None` until a channel is set) and `_noise_var` (`0.0` and
     never read outside the Blast family) -/
@@ -268,6 +275,10 @@ def step (K : Kernels α) (o : Obj α) : Op α → Obj α × Out α
       (o, match o.chan with
           | some c => sinrObs K o.scheme c v
           | none => .err (unsetErr o.scheme .sinr))
+  | .channel =>
+      (o, match o.chan with
+          | some c => .mat c.nr c.nt c.H
+          | none => .done)
 
 /-- the object after a history -/
 def run (K : Kernels α) (o : Obj α) : List (Op α) → Obj α
